@@ -67,6 +67,8 @@ func classify(err error, sessionUp bool) int {
 		return 9
 	case s == "unexpected NTS-KE meta data: unknown algorithm":
 		return 10
+	case s == "unexpected NTS-KE meta data: cookie too long":
+		return 13
 	}
 	var ne net.Error
 	if errors.As(err, &ne) {
@@ -176,7 +178,9 @@ func (h *hist) fetch(sc script) (bool, ntske.Data) {
 func (h *hist) store(c []byte) {
 	h.f.StoreCookie(c)
 	h.ops = append(h.ops, op{store: true, cookie: c})
-	h.pool++
+	if len(c) <= 896 {
+		h.pool++
+	}
 }
 
 func (h *hist) write() {
@@ -233,7 +237,7 @@ func main() {
 	}
 	n := 1500
 	if a.Tier == "thorough" {
-		n = 20000
+		n = 12000
 	}
 	genAll(r, n, a.Tier == "thorough")
 }
